@@ -2,6 +2,7 @@
   Driver — line-protocol front end of the model (built as `lean_exe purrdriver`).
   One request per line on stdin, one response line per request on stdout.  See DESIGN.md 3.7.
 -/
+import Purr.Spec.Automaton
 import Purr.Model.Feature
 import Purr.Model.Token
 import Purr.Model.Event
@@ -153,7 +154,8 @@ def doRead (s : Str) : String :=
   let b := buildS (build? es)
   let p := match firstViolation none 0 es with | none => "ok" | some i => s!"viol:{i}"
   let d := runDepth .needRoot [0] s
-  s!"{verdictS n r.2} # EV {joinSp (es.map eventS)} # W {w} # B {b} # T {traceS (trace? s)} # P {p} # D {d}{agree}"
+  let gv := match Spec.classify s with | .ok => "ok" | .endOfLine => "eol" | .character i => s!"char:{i}"
+  s!"{verdictS n r.2} # G {gv} # EV {joinSp (es.map eventS)} # W {w} # B {b} # T {traceS (trace? s)} # P {p} # D {d}{agree}"
 
 def doEvs (es : List Event) : String :=
   let w := match write? es with | some t => hexStr t | none => "panic"
